@@ -14,8 +14,8 @@ import (
 // C04 position isolation: an operation moves its amount and nobody else's value.
 type monC04 struct{}
 
-func newMonC04() *monC04      { return &monC04{} }
-func (m *monC04) Name() string { return "C04" }
+func newMonC04() *monC04           { return &monC04{} }
+func (m *monC04) Name() string     { return "C04" }
 func (m *monC04) Finish(r *Runner) {}
 
 // degenerate: a staked total without any validator shares (the only validator holding the asset was
